@@ -6,44 +6,232 @@ Resolution rules (each one over-approximates):
   f(...)            module-level function / imported package function / class named f
                     (a class makes ALL its methods and those of its bases reachable)
   self.m(...)       method m of the enclosing class, its bases and its subclasses
-  mod.attr...(...)  attribute chain rooted at an imported non-package module: external
-                    (an effect only if it is one of the listed primitives)
-  x.m(...)          any other receiver: every package function or method named m
+  mod.attr...       attribute chain rooted at an imported non-package module or object, CALLED OR MERELY
+                    MENTIONED (a mention may be a call through an alias): classified by its dotted name
+                    through EXT_RULES -- FAIL CLOSED: a name that is in neither the effect tables nor the
+                    allow-list of effect-free externals makes the function Unknown
+  x.m(...)          any other receiver: every package function or method named m; and, by the method name,
+                    an effect (pathlib-like write methods), effect-free (METHOD_PURE), or -- when no package
+                    method has that name either -- Unknown
   v(...)            v a local/unknown name: every package class (constructor call)
 Anything dynamic (exec/eval/subprocess/os.system/importlib/__import__/getattr with a
-non-literal) marks the function Unknown.
+non-literal name/a module object used as a value) marks the function Unknown.
+Module-level statements, class bodies, decorators and default-argument expressions run at import:
+they are collected in the pseudo function `<module>.<module>` of each module, and every such pseudo
+function is a root of every command (gen_effects.command_roots).
+Statements under `if platform.system() == "Windows"` (sys.platform == "win32", os.name == "nt") are
+skipped: the development speaks of the POSIX behaviour.
 """
 import ast
 import os
 
 PKG = "torrentfile"
 
-# primitive -> effect kind
-WRITE_PRIMS = {
-    ("os", "remove"): "Remove", ("os", "unlink"): "Remove", ("os", "rmdir"): "Remove",
-    ("os", "removedirs"): "Remove", ("shutil", "rmtree"): "Remove",
-    ("os", "rename"): "Rename", ("os", "renames"): "Rename", ("os", "replace"): "Rename",
-    ("shutil", "move"): "Rename",
-    ("os", "mkdir"): "Mkdir", ("os", "makedirs"): "Mkdir",
-    ("shutil", "copy"): "Copy", ("shutil", "copy2"): "Copy", ("shutil", "copyfile"): "Copy",
-    ("shutil", "copytree"): "Copy", ("shutil", "copyfileobj"): "Copy",
-    ("os", "chmod"): "Chmod", ("os", "chown"): "Chmod", ("os", "utime"): "Chmod",
-    ("os", "truncate"): "Write", ("os", "symlink"): "Write", ("os", "link"): "Write",
-    ("os", "open"): "Write", ("os", "write"): "Write", ("os", "mkfifo"): "Write",
-    ("pyben", "dump"): "Write",
-    ("tempfile", "mkstemp"): "Write", ("tempfile", "mkdtemp"): "Mkdir",
-    ("tempfile", "NamedTemporaryFile"): "Write", ("tempfile", "TemporaryFile"): "Write",
-    ("tempfile", "TemporaryDirectory"): "Mkdir",
+KINDS = ["Read", "Write", "Remove", "Rename", "Mkdir", "Copy", "Chmod"]
+
+# ------------------------------------------------------------------------------------------------
+# Classification of references to names outside the package.  Keys are dotted names; a key ending
+# in ".*" covers every deeper attribute; the longest matching key wins.  Verdicts:
+#   "pure"            no filesystem effect
+#   a KINDS member    that effect
+#   "open@N"          open-like: the mode is positional argument N (or mode=...); reading modes give
+#                     Read, anything else (w a x + or not a literal, or a mere mention) gives Write
+#   "osopen"          os.open: Read when the flags expression is built from O_RDONLY/O_BINARY/O_CLOEXEC/
+#                     O_NOFOLLOW/O_DIRECTORY only, Write otherwise
+#   "basicConfig"     logging.basicConfig: Write when called with filename=/handlers=/**kw or merely
+#                     mentioned, pure otherwise
+#   "dynamic"         Unknown
+# Everything else: Unknown ("unclassified external").
+EXT_RULES = {}
+
+
+def _rule(verdict, *names):
+    for n in names:
+        EXT_RULES[n] = verdict
+
+
+# modules all of whose attributes are effect-free on the filesystem
+_rule("pure", *[m + ".*" for m in (
+    "math", "hashlib", "time", "datetime", "typing", "collections", "functools", "itertools", "urllib.parse",
+    "re", "string", "platform", "enum", "abc", "dataclasses", "operator", "copy", "struct", "binascii", "base64",
+    "textwrap", "warnings", "contextlib", "types", "numbers", "decimal", "fractions", "random", "secrets", "uuid",
+    "bisect", "heapq", "unicodedata", "errno", "stat", "posixpath", "fnmatch", "json", "argparse", "__future__",
+    "getpass", "locale", "signal", "traceback", "pprint", "array", "zlib", "hmac", "inspect", "weakref", "queue",
+    "threading")])
+_rule("Write", "argparse.FileType")           # opens the file named on the command line in the given mode
+# sys
+_rule("pure", "sys.stdout", "sys.stdout.*", "sys.stderr", "sys.stderr.*", "sys.stdin", "sys.stdin.*",
+      "sys.__stdout__", "sys.__stdout__.*", "sys.__stderr__", "sys.__stderr__.*",
+      "sys.argv", "sys.argv.*", "sys.exit", "sys.platform", "sys.platform.*", "sys.version", "sys.version_info",
+      "sys.version_info.*", "sys.maxsize", "sys.exc_info", "sys.getsizeof", "sys.byteorder", "sys.executable",
+      "sys.getrecursionlimit", "sys.setrecursionlimit", "sys.getdefaultencoding", "sys.getfilesystemencoding",
+      "sys.float_info", "sys.float_info.*", "sys.hexversion", "sys.implementation", "sys.implementation.*",
+      "sys.flags", "sys.flags.*", "sys.path", "sys.intern")
+# io
+_rule("pure", "io.StringIO", "io.BytesIO", "io.TextIOWrapper", "io.BufferedReader", "io.BufferedWriter", "io.BufferedIOBase",
+      "io.RawIOBase", "io.IOBase", "io.TextIOBase", "io.SEEK_SET", "io.SEEK_CUR", "io.SEEK_END",
+      "io.UnsupportedOperation", "io.DEFAULT_BUFFER_SIZE")
+_rule("open@1", "io.open", "io.FileIO", "io.open_code", "codecs.open", "gzip.open", "gzip.GzipFile", "bz2.open", "bz2.BZ2File",
+      "lzma.open", "lzma.LZMAFile", "os.fdopen", "tarfile.open", "zipfile.ZipFile")
+# logging: handlers that open files are effects; the plain stream machinery is not
+_rule("pure", "logging.getLogger", "logging.StreamHandler", "logging.Formatter", "logging.NullHandler", "logging.Handler",
+      "logging.Filter", "logging.LoggerAdapter", "logging.Logger", "logging.LogRecord", "logging.DEBUG", "logging.INFO",
+      "logging.WARNING", "logging.WARN", "logging.ERROR", "logging.CRITICAL", "logging.FATAL", "logging.NOTSET",
+      "logging.debug", "logging.info", "logging.warning", "logging.warn", "logging.error", "logging.critical",
+      "logging.exception", "logging.log", "logging.disable", "logging.getLevelName", "logging.addLevelName",
+      "logging.captureWarnings", "logging.root", "logging.root.*", "logging.lastResort", "logging.shutdown",
+      "logging.getLoggerClass", "logging.setLoggerClass", "logging.BASIC_FORMAT", "logging.raiseExceptions")
+_rule("basicConfig", "logging.basicConfig")
+_rule("Write", "logging.FileHandler", "logging.handlers.*")
+# databases / persistence that create files
+_rule("Write", "sqlite3.*", "shelve.*", "dbm.*")
+_rule("pure", "pickle.dumps", "pickle.loads", "pickle.load", "pickle.dump", "pickle.HIGHEST_PROTOCOL",
+      "pickle.PickleError", "pickle.UnpicklingError", "pickle.PicklingError")     # work on open file objects
+# tempfile
+_rule("Write", "tempfile.*")
+_rule("Mkdir", "tempfile.mkdtemp", "tempfile.TemporaryDirectory")
+_rule("pure", "tempfile.gettempdir", "tempfile.gettempprefix", "tempfile.tempdir")
+# os
+_rule("Remove", "os.remove", "os.unlink", "os.rmdir", "os.removedirs")
+_rule("Rename", "os.rename", "os.renames", "os.replace")
+_rule("Mkdir", "os.mkdir", "os.makedirs")
+_rule("Chmod", "os.chmod", "os.chown", "os.utime", "os.lchown", "os.fchmod", "os.fchown", "os.lchmod", "os.chflags")
+_rule("Write", "os.truncate", "os.ftruncate", "os.symlink", "os.link", "os.write", "os.pwrite", "os.writev", "os.mkfifo",
+      "os.mknod", "os.sendfile", "os.copy_file_range", "os.setxattr", "os.removexattr", "os.posix_fallocate")
+_rule("osopen", "os.open")
+_rule("Read", "os.listdir", "os.scandir", "os.walk", "os.fwalk", "os.stat", "os.lstat", "os.fstat", "os.getcwd", "os.getcwdb",
+      "os.access", "os.readlink", "os.read", "os.pread", "os.statvfs", "os.getxattr", "os.listxattr",
+      "os.path.exists", "os.path.lexists", "os.path.isfile", "os.path.isdir", "os.path.islink", "os.path.ismount",
+      "os.path.getsize", "os.path.getmtime", "os.path.getatime", "os.path.getctime", "os.path.samefile",
+      "os.path.realpath", "os.path.abspath", "os.path.expanduser")
+_rule("pure", "os.path.*", "os.path", "os.sep", "os.linesep", "os.name", "os.curdir", "os.pardir", "os.extsep", "os.altsep",
+      "os.pathsep", "os.devnull", "os.PathLike", "os.error", "os.DirEntry", "os.stat_result", "os.terminal_size",
+      "os.environ", "os.environ.*", "os.getenv", "os.putenv", "os.unsetenv", "os.fspath", "os.fsencode", "os.fsdecode",
+      "os.getpid", "os.getppid", "os.getuid", "os.geteuid", "os.getgid", "os.getlogin", "os.cpu_count", "os.urandom",
+      "os.strerror", "os.close", "os.dup", "os.isatty", "os.get_terminal_size", "os.lseek", "os.fsync", "os.uname",
+      "os.times", "os.get_blocking", "os.device_encoding", "os.SEEK_SET", "os.SEEK_CUR", "os.SEEK_END",
+      "os.F_OK", "os.R_OK", "os.W_OK", "os.X_OK")
+# shutil
+_rule("Remove", "shutil.rmtree")
+_rule("Rename", "shutil.move")
+_rule("Copy", "shutil.copy", "shutil.copy2", "shutil.copyfile", "shutil.copytree", "shutil.copyfileobj")
+_rule("Chmod", "shutil.copymode", "shutil.copystat", "shutil.chown")
+_rule("Write", "shutil.make_archive", "shutil.unpack_archive")
+_rule("Read", "shutil.which", "shutil.disk_usage")
+_rule("pure", "shutil.get_terminal_size", "shutil.Error", "shutil.SameFileError", "shutil.ignore_patterns")
+# pathlib (instance methods go through the method-name rules below)
+_rule("pure", "pathlib.Path", "pathlib.PurePath", "pathlib.PosixPath", "pathlib.PurePosixPath", "pathlib.WindowsPath",
+      "pathlib.PureWindowsPath")
+_rule("Read", "pathlib.Path.home", "pathlib.Path.cwd", "pathlib.PosixPath.home", "pathlib.PosixPath.cwd")
+# pyben, configparser, glob
+_rule("Read", "pyben.load", "pyben.loadinto", "glob.glob", "glob.iglob", "glob.escape")
+_rule("pure", "pyben.loads", "pyben.dumps", "pyben.bendecode", "pyben.benencode", "pyben.DecodeError", "pyben.EncodeError",
+      "pyben.FilePathError", "pyben.exceptions.*", "pyben.version", "pyben.version.*",
+      "configparser.ConfigParser", "configparser.RawConfigParser", "configparser.Error", "configparser.NoSectionError",
+      "configparser.NoOptionError", "configparser.ParsingError", "configparser.MissingSectionHeaderError",
+      "configparser.DuplicateSectionError", "configparser.DuplicateOptionError", "configparser.ExtendedInterpolation",
+      "configparser.BasicInterpolation", "configparser.DEFAULTSECT")
+_rule("Write", "pyben.dump")
+_rule("dynamic", "subprocess.*", "importlib.*", "ctypes.*", "multiprocessing.*", "socket.*", "runpy.*", "os.system", "os.popen",
+      "os.fork", "os.forkpty", "os.startfile", "os.kill", "os.abort", "os._exit", "os.chdir", "os.fchdir", "os.chroot",
+      "os.umask", "sys.modules", "sys.modules.*", "sys.settrace", "sys.setprofile", "sys.addaudithook", "sys.meta_path",
+      "sys.path_hooks", "code.*", "pty.*", "asyncio.*", "concurrent.*", "webbrowser.*", "urllib.request.*", "http.*")
+
+RDONLY_FLAGS = {"O_RDONLY", "O_BINARY", "O_CLOEXEC", "O_NOFOLLOW", "O_DIRECTORY", "O_NOCTTY", "O_NONBLOCK", "O_NOATIME"}
+
+
+def classify_ext(dotted):
+    """verdict for a dotted external name (list of components), or None (unclassified)"""
+    name = ".".join(dotted)
+    if name in EXT_RULES:
+        return EXT_RULES[name]
+    if len(dotted) == 2 and dotted[0] == "os" and (dotted[1].startswith("O_") or dotted[1].startswith("EX_")):
+        return "pure"                                            # open(2) flag constants; os.open itself is judged by "osopen"
+    if len(dotted) >= 2 and dotted[0] == "os" and (dotted[1].startswith("exec") or dotted[1].startswith("spawn")
+                                                   or dotted[1].startswith("posix_spawn")):
+        return "dynamic"
+    for k in range(len(dotted) - 1, 0, -1):
+        key = ".".join(dotted[:k]) + ".*"
+        if key in EXT_RULES:
+            return EXT_RULES[key]
+    return None
+
+
+# ------------------------------------------------------------------------------------------------
+# Method names on receivers that are not resolvable (locals holding files, paths, loggers, parsers...)
+METHOD_EFFECTS = {
+    "write_text": "Write", "write_bytes": "Write", "touch": "Write", "symlink_to": "Write", "hardlink_to": "Write",
+    "link_to": "Write", "unlink": "Remove", "rmdir": "Remove", "mkdir": "Mkdir", "chmod": "Chmod", "lchmod": "Chmod",
+    "rename": "Rename", "rmtree": "Remove", "makedirs": "Mkdir", "copyfile": "Copy", "copytree": "Copy",
+    "iterdir": "Read", "glob": "Read", "rglob": "Read", "read_bytes": "Read", "read_text": "Read", "exists": "Read",
+    "is_file": "Read", "is_dir": "Read", "is_symlink": "Read", "is_mount": "Read", "stat": "Read", "lstat": "Read",
+    "resolve": "Read", "samefile": "Read", "owner": "Read", "group": "Read", "readlink": "Read", "expanduser": "Read",
+    "absolute": "Read", "home": "Read", "cwd": "Read", "is_socket": "Read", "is_fifo": "Read", "is_block_device": "Read",
+    "is_char_device": "Read", "is_junction": "Read",
+    "read": "Read",            # file.read / ConfigParser.read(paths): reading either way
 }
-READ_PRIMS = {
-    ("os", "listdir"), ("os", "scandir"), ("os", "walk"), ("os", "stat"), ("os", "getcwd"),
-    ("pyben", "load"), ("pyben", "loads"), ("pyben", "dumps"), ("shutil", "get_terminal_size"),
+PATH_WRITE_METHODS = {m for m, k in METHOD_EFFECTS.items() if k != "Read"} | {"replace"}
+
+
+def _builtin_method_names():
+    import io
+    names = set()
+    for t in (str, bytes, bytearray, list, dict, set, frozenset, tuple, int, float, bool, complex, memoryview, range, slice,
+              io.StringIO, io.BytesIO, io.BufferedReader, io.BufferedWriter, io.TextIOWrapper, BaseException, type(iter([]))):
+        names |= {n for n in dir(t)}
+    return names
+
+
+METHOD_PURE = (_builtin_method_names() - set(METHOD_EFFECTS) - {"replace", "open"}) | {
+    # logging objects
+    "debug", "info", "warning", "warn", "error", "critical", "exception", "log", "setLevel", "addHandler", "removeHandler",
+    "setFormatter", "addFilter", "removeFilter", "isEnabledFor", "getEffectiveLevel", "hasHandlers", "getChild", "setStream",
+    "formatTime", "formatException", "getMessage",
+    # argparse
+    "add_argument", "add_subparsers", "add_parser", "add_argument_group", "add_mutually_exclusive_group", "set_defaults",
+    "get_default", "parse_args", "parse_known_args", "parse_intermixed_args", "print_help", "print_usage", "format_help",
+    "format_usage", "exit",
+    # hashlib, datetime, time
+    "update", "digest", "hexdigest", "now", "utcnow", "today", "timestamp", "isoformat", "strftime", "strptime",
+    "fromtimestamp", "utcfromtimestamp", "date", "time", "total_seconds", "astimezone", "timetuple", "weekday",
+    # configparser (read is METHOD_EFFECTS)
+    "read_file", "read_string", "read_dict", "sections", "has_section", "has_option", "options", "getint", "getfloat",
+    "getboolean", "add_section", "remove_section", "remove_option", "defaults",
+    # pure path algebra
+    "joinpath", "with_name", "with_suffix", "with_stem", "relative_to", "is_relative_to", "is_absolute", "as_posix",
+    "as_uri", "match", "is_reserved", "with_segments",
+    # generators, context managers, misc containers
+    "send", "throw", "close", "most_common", "elements", "subtract", "appendleft", "popleft", "extendleft", "rotate",
+    "move_to_end", "group", "groups", "groupdict", "span", "start", "end", "search", "fullmatch", "findall", "finditer",
+    "sub", "subn", "getvalue", "getbuffer", "write", "writelines", "cache_clear", "cache_info", "bit_length",
 }
-PATH_WRITE_METHODS = {"write_text", "write_bytes", "unlink", "mkdir", "rmdir", "touch", "rename", "replace",
-                      "chmod", "symlink_to", "hardlink_to", "link_to"}
-DYNAMIC = {"exec", "eval", "compile", "__import__"}
-DYNAMIC_MODS = {"subprocess", "importlib", "ctypes", "multiprocessing", "socket", "runpy"}
-DYNAMIC_ATTRS = {("os", "system"), ("os", "popen"), ("os", "spawnl"), ("os", "execv"), ("os", "fork")}
+DYNAMIC = {"exec", "eval", "compile", "__import__", "breakpoint", "globals", "locals"}
+
+
+def is_posix_excluded_test(t):
+    """`platform.system() == "Windows"`, `sys.platform == "win32"`, `os.name == "nt"`: false on the platform under study"""
+    if not (isinstance(t, ast.Compare) and len(t.ops) == 1 and isinstance(t.ops[0], ast.Eq) and len(t.comparators) == 1):
+        return False
+    l, r = t.left, t.comparators[0]
+    if not (isinstance(r, ast.Constant) and isinstance(r.value, str)):
+        return False
+    if isinstance(l, ast.Call) and not l.args and isinstance(l.func, ast.Attribute) and isinstance(l.func.value, ast.Name):
+        return (l.func.value.id, l.func.attr, r.value) == ("platform", "system", "Windows")
+    if isinstance(l, ast.Attribute) and isinstance(l.value, ast.Name):
+        return (l.value.id, l.attr, r.value) in (("sys", "platform", "win32"), ("os", "name", "nt"))
+    return False
+
+
+def live_walk(node):
+    """ast.walk that does not descend into the body of a Windows-only `if`"""
+    todo = [node]
+    while todo:
+        n = todo.pop()
+        yield n
+        if isinstance(n, ast.If) and is_posix_excluded_test(n.test):
+            todo.extend(n.orelse)
+            continue
+        todo.extend(ast.iter_child_nodes(n))
 
 
 class Fn:
@@ -60,12 +248,19 @@ class Fn:
 
 
 class Graph:
+    # the CLI dispatcher: `args.func(args)` in cli.execute calls the function the selected sub-parser stored under `func`;
+    # the command theorems take (command function + cli.execute + import-time code) as roots, so this one edge is not
+    # followed; its possible targets are recorded in self.dispatch and gen_effects ties them to the command roots
+    DISPATCH = ("cli.execute", "func")
+
     def __init__(self, repo):
         self.repo = repo
+        self.dispatch = set()
         self.fns = {}             # qual -> Fn
         self.classes = {}         # "module.Class" -> (bases [names], node, module)
         self.mod_imports = {}     # module -> {local name: ("module", modname) | ("pkgobj", module, name)}
         self.by_name = {}         # short name -> [quals]
+        self.mod_star = {}        # module -> imports the table cannot represent (star imports, import torrentfile.x)
         self.load()
         self.resolve()
 
@@ -78,21 +273,36 @@ class Graph:
             mod = fn[:-3]
             tree = ast.parse(open(os.path.join(pdir, fn), encoding="utf-8").read())
             imports = {}
+            star = []
             for node in ast.walk(tree):
                 if isinstance(node, ast.Import):
                     for a in node.names:
-                        imports[(a.asname or a.name).split(".")[0]] = ("module", a.name)
+                        if a.name == PKG or a.name.startswith(PKG + "."):
+                            # `import torrentfile.utils [as u]`: reached through attribute chains we do not resolve
+                            star.append(f"import {a.name}")
+                            continue
+                        # `import a.b.c` binds `a` to package a; `import a.b.c as x` binds x to a.b.c
+                        if a.asname:
+                            imports[a.asname] = ("module", a.name)
+                        else:
+                            imports[a.name.split(".")[0]] = ("module", a.name.split(".")[0])
                 elif isinstance(node, ast.ImportFrom):
                     src = node.module or ""
+                    if node.level:
+                        src = PKG + ("." + src if src else "")
                     for a in node.names:
                         local = a.asname or a.name
-                        if src == PKG:
-                            imports[local] = ("pkgmod", a.name)
+                        if a.name == "*":
+                            star.append(f"from {src} import *")
+                        elif src == PKG:
+                            imports[local] = ("pkgmod", a.name) if os.path.exists(os.path.join(pdir, a.name + ".py")) \
+                                else ("pkgobj", "__init__", a.name)
                         elif src.startswith(PKG + "."):
                             imports[local] = ("pkgobj", src.split(".", 1)[1], a.name)
                         else:
                             imports[local] = ("extobj", src, a.name)
             self.mod_imports[mod] = imports
+            self.mod_star[mod] = star
 
             def add_fn(qual, cls, node):
                 f = Fn(qual, mod, cls, node)
@@ -115,11 +325,30 @@ class Graph:
                         self.classes[cq] = (bases, node, mod)
                         visit_body(node.body, cq, cq)
             visit_body(tree.body, mod, None)
-            # module-level code is a pseudo function
+            # code that runs at import is a pseudo function: module-level statements, class-body statements,
+            # base-class expressions, decorators and default-argument expressions of every def
+            at_import = [n for n in tree.body if not isinstance(n, (ast.FunctionDef, ast.AsyncFunctionDef, ast.ClassDef))]
+
+            def collect(body):
+                for node in body:
+                    if isinstance(node, (ast.FunctionDef, ast.AsyncFunctionDef)):
+                        exprs = list(node.decorator_list) + list(node.args.defaults) + [k for k in node.args.kw_defaults if k is not None]
+                    elif isinstance(node, ast.ClassDef):
+                        exprs = list(node.decorator_list) + list(node.bases) + [k.value for k in node.keywords]
+                        at_import.extend(n for n in node.body if not isinstance(n, (ast.FunctionDef, ast.AsyncFunctionDef, ast.ClassDef)))
+                        collect(node.body)
+                    else:
+                        continue
+                    for e in exprs:
+                        x = ast.Expr(value=e)
+                        ast.copy_location(x, e)
+                        at_import.append(x)
+            collect(tree.body)
             top = ast.FunctionDef(name="<module>", args=ast.arguments(posonlyargs=[], args=[], kwonlyargs=[], kw_defaults=[], defaults=[]),
-                                  body=[n for n in tree.body if not isinstance(n, (ast.FunctionDef, ast.ClassDef))] or [ast.Pass()],
-                                  decorator_list=[])
+                                  body=at_import or [ast.Pass()], decorator_list=[])
             add_fn(f"{mod}.<module>", None, top)
+            for why in star:
+                self.fns[f"{mod}.<module>"].unknown.append(f"unsupported import form: {why}")
 
     def class_by_short(self, name):
         return [cq for cq in self.classes if cq.split(".")[-1] == name]
@@ -191,6 +420,7 @@ class Graph:
     def find_cells_and_escapes(self):
         """callback cells (attributes assigned through cls.X = / Class.X =) and package callables passed as arguments"""
         self.cells, self.escaped = set(), set()
+        self.kwstore = {}
         for f in self.fns.values():
             for node in ast.walk(f.node):
                 if isinstance(node, ast.Assign):
@@ -199,6 +429,21 @@ class Graph:
                             if t.value.id == "cls" or any(c.split(".")[-1] == t.value.id for c in self.classes):
                                 self.cells.add(t.attr)
                 if isinstance(node, ast.Call):
+                    # package callables stored under a keyword (parser.set_defaults(func=commands.create)): a later call
+                    # `x.func(...)` on an unresolvable receiver may be any of them
+                    for k in node.keywords:
+                        if k.arg is None:
+                            continue
+                        v, q = k.value, None
+                        if isinstance(v, ast.Attribute) and isinstance(v.value, ast.Name):
+                            imp = self.mod_imports[f.module].get(v.value.id)
+                            if imp and imp[0] == "pkgmod":
+                                q = f"{imp[1]}.{v.attr}"
+                        elif isinstance(v, ast.Name):
+                            imp = self.mod_imports[f.module].get(v.id)
+                            q = f"{imp[1]}.{imp[2]}" if imp and imp[0] == "pkgobj" else f"{f.module}.{v.id}"
+                        if q in self.fns:
+                            self.kwstore.setdefault(k.arg, set()).add(q)
                     for a in list(node.args) + [k.value for k in node.keywords]:
                         if isinstance(a, ast.Attribute) and isinstance(a.value, ast.Name) and a.value.id in ("self", "cls") and f.cls:
                             for q in self.methods_of_class(f.cls):
@@ -217,18 +462,71 @@ class Graph:
         for f in self.fns.values():
             imports = self.mod_imports[f.module]
             self._locals = self.local_callables(f, imports)
-            discarded = {id(n.value) for n in ast.walk(f.node) if isinstance(n, ast.Expr) and isinstance(n.value, ast.Call)}
-            for node in ast.walk(f.node):
+            nodes = list(live_walk(f.node))
+            discarded = {id(n.value) for n in nodes if isinstance(n, ast.Expr) and isinstance(n.value, ast.Call)}
+            call_funcs = {id(n.func) for n in nodes if isinstance(n, ast.Call)}
+            inner = {id(n.value) for n in nodes if isinstance(n, ast.Attribute)}      # not the outermost link of a chain
+            bound = self.bound_names(f)
+            # getattr(os, "O_BINARY", 0): the module name there is an attribute reference with a literal name (see reflective)
+            inner |= {id(n.args[0]) for n in nodes if isinstance(n, ast.Call) and isinstance(n.func, ast.Name)
+                      and n.func.id in ("getattr", "hasattr") and len(n.args) >= 2 and isinstance(n.args[1], ast.Constant)
+                      and isinstance(n.args[1].value, str)}
+            for node in nodes:
                 if isinstance(node, ast.Call):
                     saved, f.calls = f.calls, set()
-                    self.resolve_call(f, node, imports)
+                    self.resolve_call(f, node, imports, bound)
                     targets, f.calls = f.calls, saved | f.calls
                     f.sites.append((targets, id(node) in discarded))
+                elif isinstance(node, (ast.Attribute, ast.Name)) and id(node) not in call_funcs and id(node) not in inner \
+                        and isinstance(node.ctx, ast.Load):
+                    self.mention(f, node, imports, bound)
             # decorators may wrap the function in a package class/function
             for d in getattr(f.node, "decorator_list", []):
                 name = d.id if isinstance(d, ast.Name) else (d.func.id if isinstance(d, ast.Call) and isinstance(d.func, ast.Name) else None)
                 if name:
                     self.call_name(f, name, imports)
+
+    def bound_names(self, f):
+        """names bound locally in f (parameters, assignment/for/with/except targets): they shadow the import table"""
+        out = set()
+        args = getattr(f.node, "args", None)
+        if args is not None:
+            for a in list(args.posonlyargs) + list(args.args) + list(args.kwonlyargs) + [args.vararg, args.kwarg]:
+                if a is not None:
+                    out.add(a.arg)
+        if f.name == "<module>":
+            return set()          # module-level bindings are the import table's own scope
+        for n in ast.walk(f.node):
+            if isinstance(n, ast.Name) and isinstance(n.ctx, ast.Store):
+                out.add(n.id)
+            elif isinstance(n, ast.ExceptHandler) and n.name:
+                out.add(n.name)
+        declared = {nm for n in ast.walk(f.node) if isinstance(n, (ast.Global, ast.Nonlocal)) for nm in n.names}
+        return out - declared
+
+    def ext_dotted(self, root, chain, imports, bound):
+        """dotted external name of an attribute chain rooted at an imported non-package name, else None"""
+        if root is None or root in bound:
+            return None
+        imp = imports.get(root)
+        if imp and imp[0] == "module":
+            return imp[1].split(".") + chain
+        if imp and imp[0] == "extobj":
+            return imp[1].split(".") + [imp[2]] + chain
+        return None
+
+    def mention(self, f, node, imports, bound):
+        """an external name used as a value (not called here): it may be called through the alias, so it counts as called
+        with unknown arguments"""
+        root, chain = self.root_of(node)
+        if isinstance(node, ast.Name):
+            imp = imports.get(node.id) if node.id not in bound else None
+            if imp and imp[0] == "module":
+                f.unknown.append(f"module object `{node.id}` used as a value")
+                return
+        dotted = self.ext_dotted(root, chain, imports, bound)
+        if dotted:
+            self.external(f, dotted, None)
 
     def root_of(self, node):
         chain = []
@@ -242,32 +540,45 @@ class Graph:
             return ("<call>" + (r or "")), list(reversed(chain))
         return None, list(reversed(chain))
 
-    def open_mode(self, call):
+    def open_mode(self, call, pos=1):
         mode = None
-        if len(call.args) >= 2:
-            mode = call.args[1]
+        if len(call.args) > pos:
+            mode = call.args[pos]
+        if any(isinstance(a, ast.Starred) for a in call.args):
+            return "?"
         for kw in call.keywords:
             if kw.arg == "mode":
                 mode = kw.value
+            if kw.arg is None:
+                return "?"
         if mode is None:
             return "r"
         if isinstance(mode, ast.Constant) and isinstance(mode.value, str):
             return mode.value
         return "?"
 
-    def call_name(self, f, name, imports):
+    def open_effect(self, f, what, mode):
+        if set(mode) & set("wax+?"):
+            f.effects.append(("Write", f"{what} mode {mode!r}"))
+        else:
+            f.effects.append(("Read", f"{what} mode {mode!r}"))
+
+    def call_name(self, f, name, imports, call=None, bound=()):
         """call of a bare name"""
         if name in DYNAMIC:
             f.unknown.append(f"dynamic call {name}")
             return
         if name == "open":
             return  # handled by caller (needs the mode)
-        imp = imports.get(name)
+        imp = imports.get(name) if name not in bound else None
         if imp and imp[0] == "pkgobj":
             self.call_pkg_object(f, imp[1], imp[2])
             return
         if imp and imp[0] == "extobj":
-            self.external(f, (imp[1].split(".")[0], imp[2]))
+            self.external(f, imp[1].split(".") + [imp[2]], call)
+            return
+        if imp and imp[0] == "module":
+            f.unknown.append(f"module object `{name}` called")
             return
         # same module function or class
         q = f"{f.module}.{name}"
@@ -282,9 +593,9 @@ class Graph:
             self.call_class(f, f"{f.cls}.{name}")
             return
         import builtins
-        if hasattr(builtins, name):
-            if name in ("getattr", "setattr", "globals", "vars"):
-                pass
+        if hasattr(builtins, name) and name not in bound:
+            if name in ("getattr", "setattr", "delattr", "hasattr") and call is not None:
+                self.reflective(f, name, call, imports, bound)
             return
         if name == "cls" and f.cls:
             self.call_class(f, f.cls)
@@ -299,6 +610,27 @@ class Graph:
         # unknown local callable: every package class may be constructed
         for cq in self.classes:
             self.call_class(f, cq)
+
+    def reflective(self, f, name, call, imports, bound):
+        """getattr/setattr/delattr/hasattr: a literal attribute name is an ordinary attribute reference; anything else is dynamic"""
+        if len(call.args) < 2 or any(isinstance(a, ast.Starred) for a in call.args):
+            f.unknown.append(f"{name} with unsupported arguments")
+            return
+        attr = call.args[1]
+        if not (isinstance(attr, ast.Constant) and isinstance(attr.value, str)):
+            if name != "hasattr":
+                f.unknown.append(f"{name} with a computed attribute name")
+            return
+        if name in ("getattr", "hasattr"):
+            root, chain = self.root_of(call.args[0])
+            dotted = self.ext_dotted(root, chain + [attr.value], imports, bound)
+            if dotted:
+                if name == "getattr":
+                    self.external(f, dotted, None)
+                return
+            if name == "getattr" and isinstance(call.args[0], ast.Name) and call.args[0].id not in bound \
+                    and imports.get(call.args[0].id, ("",))[0] == "module":
+                f.unknown.append(f"getattr on module `{call.args[0].id}`")
 
     def call_pkg_object(self, f, module, name):
         q = f"{module}.{name}"
@@ -320,28 +652,62 @@ class Graph:
             for m in self.methods_of_class(sub):
                 f.calls.add(m)
 
-    def external(self, f, key, call=None):
-        mod, attr = key
-        if mod in DYNAMIC_MODS or key in DYNAMIC_ATTRS:
-            f.unknown.append(f"dynamic/external process: {mod}.{attr}")
-        elif key in WRITE_PRIMS:
-            f.effects.append((WRITE_PRIMS[key], f"{mod}.{attr}"))
-        elif key in READ_PRIMS or mod in ("os", "shutil", "pathlib", "pyben", "configparser"):
-            if mod == "os" and attr == "path":
-                return
-            f.effects.append(("Read", f"{mod}.{attr}"))
+    def external(self, f, dotted, call=None):
+        """reference to (call is None) or call of a name outside the package -- fail closed"""
+        name = ".".join(dotted)
+        v = classify_ext(dotted)
+        if v is None:
+            f.unknown.append(f"unclassified external `{name}`" + ("" if call is not None else " (mentioned)"))
+        elif v == "dynamic":
+            f.unknown.append(f"dynamic/external process: {name}")
+        elif v == "pure":
+            return
+        elif v in KINDS:
+            f.effects.append((v, name))
+        elif v.startswith("open@"):
+            self.open_effect(f, name, self.open_mode(call, int(v[5:])) if call is not None else "?")
+        elif v == "osopen":
+            ok = call is not None and len(call.args) >= 2 and not call.keywords
+            if ok:
+                for n in ast.walk(call.args[1]):
+                    if isinstance(n, ast.Attribute):
+                        ok = ok and n.attr in RDONLY_FLAGS
+                    elif isinstance(n, ast.Constant):
+                        ok = ok and n.value == 0
+                    elif not isinstance(n, (ast.BinOp, ast.BitOr, ast.Name, ast.Load)):
+                        ok = False
+                    elif isinstance(n, ast.Name) and n.id != "os":
+                        ok = False
+            f.effects.append(("Read" if ok else "Write", name + ("" if ok else " (flags not provably read-only)")))
+        elif v == "basicConfig":
+            if call is None or any(kw.arg in (None, "filename", "handlers") for kw in call.keywords) or call.args:
+                f.effects.append(("Write", name + " with filename=/handlers=/computed arguments"))
+        else:
+            f.unknown.append(f"unhandled verdict {v} for {name}")
 
-    def resolve_call(self, f, call, imports):
+    def method_rule(self, f, meth, call, targets):
+        """method call on a receiver that is not resolvable: judged by the method name"""
+        if meth == "open":
+            # Path.open(mode=...) / tarfile-like: mode is the first positional argument
+            self.open_effect(f, "<obj>.open", self.open_mode(call, 0))
+        elif meth == "replace":
+            # Path.replace(target) takes one argument; str/bytes.replace(old, new[, count]) two or three
+            if len(call.args) + len(call.keywords) < 2:
+                f.effects.append(("Rename", "<obj>.replace (pathlib-like)"))
+        elif meth in METHOD_EFFECTS:
+            f.effects.append((METHOD_EFFECTS[meth], f"<obj>.{meth} (pathlib-like)"))
+        elif meth in METHOD_PURE or (meth.startswith("__") and meth.endswith("__")):
+            pass
+        elif not targets:
+            f.unknown.append(f"method `.{meth}()` on an unclassified receiver")
+
+    def resolve_call(self, f, call, imports, bound=()):
         fn = call.func
         if isinstance(fn, ast.Name):
-            if fn.id == "open":
-                mode = self.open_mode(call)
-                if set(mode) & set("wax+?"):
-                    f.effects.append(("Write", f"open mode {mode!r}"))
-                else:
-                    f.effects.append(("Read", f"open mode {mode!r}"))
+            if fn.id == "open" and fn.id not in bound:
+                self.open_effect(f, "open", self.open_mode(call))
                 return
-            self.call_name(f, fn.id, imports)
+            self.call_name(f, fn.id, imports, call, bound)
             return
         if isinstance(fn, ast.Attribute):
             root, chain = self.root_of(fn)
@@ -357,9 +723,17 @@ class Graph:
                     for q in targets:
                         f.calls.add(q)
                     return
-                # attribute holding a callable (callback): any package function of that name, else benign
+                nested = [cq for cq in self.classes if cq.split(".")[-1] == meth and cq.count(".") >= 2]
+                if nested:                      # self.Inner(...): a class nested in this class (or, by name, in any class)
+                    for cq in nested:
+                        self.call_class(f, cq)
+                    return
+                # attribute holding a callable (callback), or a method inherited from an external base: any package
+                # function of that name; judged by its name otherwise
                 for q in self.by_name.get(meth, []):
                     f.calls.add(q)
+                if meth not in self.cells and not self.instance_attr(f.cls, meth):
+                    self.method_rule(f, meth, call, self.by_name.get(meth, []))
                 return
             if root == "<call>super" and f.cls:
                 # super().m(...): method m of the (package) bases of the enclosing class; external otherwise
@@ -369,29 +743,15 @@ class Graph:
                             if q.split(".")[-1] == meth:
                                 f.calls.add(q)
                 return
-            imp = imports.get(root) if root else None
-            if imp and imp[0] == "module":
-                modname = imp[1].split(".")[0]
-                if modname == "os" and len(chain) >= 2 and chain[0] == "path":
-                    if chain[1] in ("exists", "isfile", "isdir", "getsize", "getmtime", "islink", "samefile"):
-                        f.effects.append(("Read", "os.path." + chain[1]))
-                    return
-                if len(chain) == 1:
-                    self.external(f, (modname, meth), call)
-                    return
-                # e.g. sys.stdout.write: external and not a filesystem primitive
-                if modname in DYNAMIC_MODS:
-                    f.unknown.append(f"dynamic/external process: {modname}")
+            dotted = self.ext_dotted(root, chain, imports, bound)
+            if dotted:
+                self.external(f, dotted, call)
                 return
+            imp = imports.get(root) if (root and root not in bound) else None
             if imp and imp[0] == "pkgmod":
                 if len(chain) == 1:
                     self.call_pkg_object(f, imp[1], meth)
                     return
-            if imp and imp[0] == "extobj":
-                # e.g. Path.home(): method on an external class
-                if imp[2] == "Path" and meth in PATH_WRITE_METHODS:
-                    f.effects.append(("Write", f"Path.{meth}"))
-                return
             if imp and imp[0] == "pkgobj" and len(chain) == 1:
                 # Class.method(...) or function attribute
                 cq = f"{imp[1]}.{imp[2]}"
@@ -406,10 +766,13 @@ class Graph:
                     if q.split(".")[-1] == meth:
                         f.calls.add(q)
                 return
-            # any other receiver: every package function/method with that name
-            if meth in PATH_WRITE_METHODS and meth not in ("replace", "rename") :
-                f.effects.append(("Write", f"<obj>.{meth} (pathlib-like)"))
-            for q in self.by_name.get(meth, []):
+            # any other receiver: every package function/method with that name, and the verdict of the name itself
+            targets = list(self.by_name.get(meth, [])) + sorted(self.kwstore.get(meth, ()))
+            if (f.qual, meth) == self.DISPATCH and self.kwstore.get(meth):
+                self.dispatch |= self.kwstore[meth]
+                return
+            self.method_rule(f, meth, call, targets)
+            for q in targets:
                 f.calls.add(q)
             return
         if isinstance(fn, ast.Call) or isinstance(fn, ast.Subscript) or isinstance(fn, ast.Lambda):
@@ -417,6 +780,23 @@ class Graph:
                 self.call_class(f, cq)
             return
         f.unknown.append("call of an unsupported expression form")
+
+    def instance_attr(self, cq, name):
+        """is `self.<name>` assigned somewhere in class cq, its bases or subclasses (an instance attribute holding a callable)"""
+        todo, seen = [cq], set()
+        while todo:
+            c = todo.pop()
+            if c in seen or c not in self.classes:
+                continue
+            seen.add(c)
+            for n in ast.walk(self.classes[c][1]):
+                if isinstance(n, ast.Attribute) and isinstance(n.ctx, ast.Store) and n.attr == name \
+                        and isinstance(n.value, ast.Name) and n.value.id == "self":
+                    return True
+            for b in self.classes[c][0]:
+                todo += self.class_by_short(b)
+            todo += self.subclasses(c)
+        return False
 
     # ------------------------------------------------------------------ queries
     def reach(self, roots):
